@@ -841,6 +841,11 @@ func toASTPosition(pos Position) ast.Position {
 }
 
 func normalizeNumber(s string) string {
+	// only the mantissa carries decimal and group marks; keep the exponent as written
+	if i := strings.IndexAny(s, "eE"); i > 0 {
+		return normalizeNumber(s[:i]) + s[i:]
+	}
+
 	var dotCount, commaCount int
 	var lastDot, lastComma int
 
